@@ -4,7 +4,7 @@ import numpy as np
 from scipy.linalg import expm
 
 
-def _ancilla_pt(dt, n, Hint, Henv, env0, d=2, e=2):
+def _ancilla_pt(dt, n, Hint, Henv, env0, d=2, e=2, close_last_bond=False):
     """PT of a system coupled to one ancilla: joint unitary U = exp(-i (Hint + 1 x Henv) dt)
     applied between the system half-steps.  MPO tensor legs: (past bond, future bond, in, out);
     bond = vectorised ancilla state (row-major vec), in/out = vectorised system state."""
@@ -17,12 +17,15 @@ def _ancilla_pt(dt, n, Hint, Henv, env0, d=2, e=2):
     M = S.transpose(5, 7, 1, 3, 4, 6, 0, 2).reshape(e * e, e * e, d * d, d * d)
     pt = SimpleProcessTensor(d, dt=dt)
     first = np.einsum('b,bcio->cio', env0.reshape(-1), M)[None, ...]
-    for k in range(n):
-        pt.set_mpo_tensor(k, first if k == 0 else M)
-    # caps: trace over the ancilla at every step
     cap = np.eye(e).reshape(-1)
+    for k in range(n):
+        t = first if k == 0 else M
+        if close_last_bond and k == n - 1:
+            t = np.einsum('bcio,c->bio', t, cap)[:, None, :, :]     # final bond of dimension 1 (as PT-TEMPO produces)
+        pt.set_mpo_tensor(k, t)
+    # caps: trace over the ancilla at every step
     for k in range(n + 1):
-        pt.set_cap_tensor(k, np.array([1.0]) if k == 0 else cap)
+        pt.set_cap_tensor(k, np.array([1.0]) if (k == 0 or (close_last_bond and k == n)) else cap)
     return pt, U
 
 
